@@ -14,7 +14,7 @@ import (
 func init() {
 	register(Property{
 		ID:          "C14",
-		Explanation: "Decided statically: R1 cycle cover - every recursion cycle of the result resolver's call graph passes the guarded entry (resultsFromAstAt), whose recursive continuations are only created on the not-yet-visited edge of the visited test for (function type, result index); the one other cycle descends structurally (the expression list handed down is a literal of the range variable over the call's arguments); R2 mark-on-miss - every return of the visited helper that can answer 'not visited' is dominated by a store of the mark for (t, at); R3 index/bound pairing - in every counted loop of the library, an element accessor X.At(i)/Field(i)/Method(i)/Index(i) is applied to the same base whose Len/NumFields/... bounds the loop (simple getters and single-definition locals are looked through); R4 length summary - every return of Results is a list built by make(FuncResults, n) with a loop 0..n that makes every slot non-empty, or is returned under n == 0; R5 the resolver has no schedule-dependent order source, writes no shared state (the visited set is allocated per call) and the package's unused result cache stays unused. R6 index/bound pairing across calls - an accessor indexed by a parameter is followed to every static call site (receiver and parameters translated) until a counted loop over the same sequence bounds it; R7 in newPkg every declaration store into the signature table precedes every call-site store (or is unconditional), so a call seen before its callee's declaration cannot occupy the slot. R8 nothing reached by the resolver keeps state on the loaded package (universe write scan); R9 the list of visited marks has one slot per result (NumFields() or a counter adding len(field.Names), 1 or max(len(field.Names),1) per field). R10 the package record of a followed function comes from the universe (the unchecked assertion to *pkgInfo is applied to Universe.Package only); R11 the ast.Inspect callback that collects return statements answers false only for function literals, the nil node, a return statement or a consumer that stopped. A5 every index/slice/count expression of the resolver is in bounds (guards, loop bounds, T9 make(_, E) with index below the same count E, equal-length ranges, counts built by += non-negative; reviewed: an int parameter used as index whose every call chain formed it under a dominating v < count). R12 code that consults Signature.Variadic to type an argument also reads the call's Ellipsis (no instance today). R13 the object whose assignments are traced is never nil at a call of the tracing function (unconditional ObjectOf of the identifier at hand, or under != nil). R14 every loop over an iterator function in the resolver runs to the end or leaves only behind its own yield having answered false (the ast.Inspect-driven iterator cannot be stopped); R15 the Type of every Result literal is the checker's answer, never a type made up in the resolver. NOT decided: that each alternative is assignable to the declared result type, exactness for literal-only functions, and the absence of every other panic over all real functions (semantic precision over arbitrary programs). Round 8: R16 the text Eval evaluates is what go/format.Node printed for the node (every return of the stringifier is the formatter's buffer); R13 judges every function that takes a types.Object to trace, forwarded targets at the outer call.",
+		Explanation: "Decided statically: R1 cycle cover - every recursion cycle of the result resolver's call graph passes the guarded entry (resultsFromAstAt), whose recursive continuations are only created on the not-yet-visited edge of the visited test for (function type, result index); the one other cycle descends structurally (the expression list handed down is a literal of the range variable over the call's arguments); R2 mark-on-miss - every return of the visited helper that can answer 'not visited' is dominated by a store of the mark for (t, at); R3 index/bound pairing - in every counted loop of the library, an element accessor X.At(i)/Field(i)/Method(i)/Index(i) is applied to the same base whose Len/NumFields/... bounds the loop (simple getters and single-definition locals are looked through); R4 length summary - every return of Results is a list built by make(FuncResults, n) with a loop 0..n that makes every slot non-empty, or is returned under n == 0; R5 the resolver has no schedule-dependent order source, writes no shared state (the visited set is allocated per call) and the package's unused result cache stays unused. R6 index/bound pairing across calls - an accessor indexed by a parameter is followed to every static call site (receiver and parameters translated) until a counted loop over the same sequence bounds it; R7 in newPkg every declaration store into the signature table precedes every call-site store (or is unconditional), so a call seen before its callee's declaration cannot occupy the slot. R8 nothing reached by the resolver keeps state on the loaded package (universe write scan); R9 the list of visited marks has one slot per result (NumFields() or a counter adding len(field.Names), 1 or max(len(field.Names),1) per field). R10 the package record of a followed function comes from the universe (the unchecked assertion to *pkgInfo is applied to Universe.Package only); R11 the ast.Inspect callback that collects return statements answers false only for function literals, the nil node, a return statement or a consumer that stopped. A5 every index/slice/count expression of the resolver is in bounds (guards, loop bounds, T9 make(_, E) with index below the same count E, equal-length ranges, counts built by += non-negative; reviewed: an int parameter used as index whose every call chain formed it under a dominating v < count). R12 code that consults Signature.Variadic to type an argument also reads the call's Ellipsis (no instance today). R13 the object whose assignments are traced is never nil at a call of the tracing function (unconditional ObjectOf of the identifier at hand, or under != nil). R14 every loop over an iterator function in the resolver runs to the end or leaves only behind its own yield having answered false (the ast.Inspect-driven iterator cannot be stopped); R15 the Type of every Result literal is the checker's answer, never a type made up in the resolver. NOT decided: that each alternative is assignable to the declared result type, exactness for literal-only functions, and the absence of every other panic over all real functions (semantic precision over arbitrary programs). Round 8: R16 the text Eval evaluates is what go/format.Node printed for the node (every return of the stringifier is the formatter's buffer); R13 judges every function that takes a types.Object to trace, forwarded targets at the outer call. Round 9: R17 no (*types.Func).Origin() lookups in the resolver or its accessors; R18 an alternative's constant is what Eval answered, not the converted constant recorded in place.",
 		Assumptions: append([]string{"go/ast invariant: FuncDecl.Type and FuncLit.Type are never nil"}, commonAssumptions...),
 		Run:         runC14,
 	})
